@@ -362,7 +362,20 @@ func (s *scen) capMonitor(st *chainsim.Step, v func(key, what string)) {
 			preOff = pb.Allocated - pg.size
 		}
 		if off := b.Allocated - g.size; off != 0 && (off != preOff || st.Pre.Depth == 0) {
-			v("C13:allocated-differs-from-open-allocations:"+sig(st)+":"+state,
+			uneven := ""
+			for _, aid := range pre.allocIDs {
+				pa := pre.allocs[aid]
+				serves := false
+				for _, d := range pa.Blobbers {
+					serves = serves || d.BlobberID == id
+				}
+				for _, d := range pa.Blobbers {
+					if serves && d.Size != pa.Blobbers[0].Size {
+						uneven = ":allocation-with-uneven-blobber-sizes"
+					}
+				}
+			}
+			v("C13:allocated-differs-from-open-allocations:"+sig(st)+":"+state+uneven,
 				fmt.Sprintf("blobber %s: Allocated %d, sum of its sizes over %d open allocation(s) %d", short(id), b.Allocated, g.n, g.size))
 		}
 		// capacity at assignment time
@@ -442,12 +455,6 @@ func (s *scen) closeMonitor(st *chainsim.Step, v func(key, what string)) {
 	if a == nil {
 		return
 	}
-	if !ok {
-		if post.allocs[id] == nil {
-			v("C14:failed-close-removed-allocation:"+fn, "allocation gone after a failed close")
-		}
-		return
-	}
 	caller := st.Txn.ClientID
 	role := "stranger"
 	if caller == a.Owner {
@@ -465,7 +472,27 @@ func (s *scen) closeMonitor(st *chainsim.Step, v func(key, what string)) {
 	} else if a.Expiration == st.Txn.CreationDate {
 		when = "at-expiry"
 	}
+	if !ok {
+		if post.allocs[id] == nil {
+			v("C14:failed-close-removed-allocation:"+fn, "allocation gone after a failed close")
+		}
+		// an authorised caller at the right time must be able to close (a failure because an offer
+		// cannot be released belongs to C13)
+		rightTime := (fn == "cancel_allocation" && role == "owner" && when != "after-expiry") ||
+			(fn == "finalize_allocation" && role != "stranger" && when != "before-expiry")
+		if rightTime && !strings.Contains(st.Txn.TransactionOutput, "removing offer") {
+			p := ""
+			if a.OpenChallenges > 0 {
+				p = ":open-challenge-pending"
+			}
+			v("C14:authorised-close-failed:"+fn+":"+role+p, fmt.Sprintf("%s by the %s %s failed: %.200s", fn, role, when, st.Txn.TransactionOutput))
+		}
+		return
+	}
 	st.Tag("close:" + fn + ":" + role + ":" + when)
+	if a.OpenChallenges > 0 {
+		st.Tag("close:with-open-challenge")
+	}
 	switch fn {
 	case "cancel_allocation":
 		if role != "owner" || when == "after-expiry" {
@@ -497,6 +524,40 @@ func (s *scen) closeMonitor(st *chainsim.Step, v func(key, what string)) {
 	charge := new(big.Int)
 	new(big.Float).SetFloat64(cost*pre.conf.CancellationCharge + 1).Int(charge)
 	paidAll := new(big.Int)
+	// what the blobbers receive beyond the challenge value they earned since their last finalized
+	// challenge (time share of the outstanding value, as documented for ChallengePoolIntegralValue)
+	// is cancellation charge; its total must stay within the configured charge
+	chargePaid := new(big.Int)
+	pending := ""
+	if a.OpenChallenges > 0 {
+		pending = ":open-challenge-pending"
+	}
+	now := st.Txn.CreationDate
+	for _, d := range a.Blobbers {
+		var p0, p1 currency.Coin
+		if sp := pre.sps["blobber:"+d.BlobberID]; sp != nil {
+			_, p0 = spTotals(sp)
+		}
+		if sp := post.sps["blobber:"+d.BlobberID]; sp != nil {
+			_, p1 = spTotals(sp)
+		}
+		paid := new(big.Int).Sub(new(big.Int).SetUint64(uint64(p1)), new(big.Int).SetUint64(uint64(p0)))
+		earned := new(big.Int)
+		if now > d.LatestFinalized {
+			earned.SetUint64(uint64(d.Integral))
+			if span := a.Expiration - d.LatestFinalized; span > 0 && now-d.LatestFinalized < span {
+				earned.Mul(earned, big.NewInt(int64(now-d.LatestFinalized)))
+				earned.Div(earned, big.NewInt(int64(span)))
+			}
+		}
+		earned.Add(earned, big.NewInt(1))
+		if ex := new(big.Int).Sub(paid, earned); ex.Sign() > 0 {
+			chargePaid.Add(chargePaid, ex)
+		}
+	}
+	if chargePaid.Cmp(new(big.Int).Add(charge, big.NewInt(int64(len(a.Blobbers))))) > 0 {
+		v("C14:cancellation-charge-paid-exceeds-configured-charge:"+fn+pending, fmt.Sprintf("beyond the challenge value earned since their last finalized challenge the blobbers received %s in total; the configured cancellation charge is %s (%g of cost %.0f)", chargePaid, charge, pre.conf.CancellationCharge, cost))
+	}
 	for _, d := range a.Blobbers {
 		var p0, p1 currency.Coin
 		if sp := pre.sps["blobber:"+d.BlobberID]; sp != nil {
